@@ -355,7 +355,7 @@ Proof.
     destruct (negb (is_kind st KSpace u)); [reflexivity|].
     destruct (negb (forallb (fun b0 => memN b0 (c_bases (get_cont st u))) bs)); reflexivity.
   - intros HS'. apply (strn_same st); [exact HS'| |exact H]. unfold step_set_params.
-    destruct (negb (is_kind st KSpace u)); [reflexivity|]. destruct (c_params (get_cont st u)); reflexivity.
+    destruct (negb (is_kind st KSpace u)); reflexivity.
   - intros HS'. apply (strn_same st); [exact HS'| |exact H]. destruct (is_kind st KSpace u); reflexivity.
   - intros HS'. apply (strn_same st); [exact HS'| |exact H]. destruct (is_kind st KSpace u); [|reflexivity].
     destruct (lookupZ k (c_items (get_cont st u))); reflexivity.
